@@ -65,7 +65,15 @@ package types
 //@   ensures result.Owner == id.Owner && result.DSeq == id.DSeq
 // escrow ids of market objects (scope; the textual id mapping is C05)
 //@ spec bidXID(id: BidID): str
-//@ spec leasePID(id: LeaseID): str
+//@ spec opaque leasePID(id: LeaseID): str = itoa(id.GSeq) + "/" + itoa(id.OSeq) + "/" + id.Provider
+//@ spec leaseDep(id: LeaseID): dtypes.DeploymentID
+//@ axiom leaseDepDef: forall id: LeaseID :: leaseDep(id).Owner == id.Owner && leaseDep(id).DSeq == id.DSeq
+//@   trigger leaseDep(id)
+// a lease's payment stream under its deployment's escrow account leads back to exactly that lease
+//@ func LeaseIDFromEscrowAccount
+//@   ensures [scope] id.Scope != "deployment" ==> !result1
+//@   ensures [roundtrip] forall l: LeaseID :: id.Scope == "deployment" && id.XID == depXID(leaseDep(l)) && canonicalAddr(l.Owner)
+//@        && pid == leasePID(l) && canonicalAddr(l.Provider) ==> result1 && result0 == l
 //@ func (BidID).String
 //@   trusted
 //@   ensures result == bidXID(id)
@@ -79,6 +87,25 @@ package types
 //@   ensures result == nil <==> o.State == OrderOpen
 //@ func (Order).ValidateInactive
 //@   ensures result == nil <==> o.State == OrderClosed
+
+// ---- C08: stateless admission of a bid: a well-formed order id, a provider that is not the tenant, a non-zero price
+//@ func (OrderID).Validate
+//@   ensures result == nil <==> (validBech32(id.Owner) && bech32(unbech32(id.Owner)) == id.Owner && id.DSeq != 0 && id.GSeq != 0 && id.OSeq != 0)
+//@ func (MsgCreateBid).ValidateBasic
+//@   ensures result == nil ==> validBech32(msg.Provider) && validBech32(msg.Order.Owner) && unbech32(msg.Provider) != unbech32(msg.Order.Owner)
+//@        && msg.Price.Amount != 0 && msg.Order.DSeq != 0 && msg.Order.GSeq != 0 && msg.Order.OSeq != 0
+//@ func (Order).Price
+//@   ensures result == groupPrice(o.Spec)
+//@ func (Order).MatchRequirements
+//@   requires len(prov) >= 1
+//@   requires forall k1: int, k2: int :: 1 <= k1 && k1 < k2 && k2 < len(prov) ==> prov[k1].Auditor != prov[k2].Auditor
+//@   ensures [self] len(o.Spec.Requirements.SignedBy.AnyOf) == 0 && len(o.Spec.Requirements.SignedBy.AllOf) == 0 ==>
+//@              (result <==> subsetAttrs(o.Spec.Requirements.Attributes, prov[0].Attributes))
+//@   ensures [audited] len(o.Spec.Requirements.SignedBy.AnyOf) != 0 || len(o.Spec.Requirements.SignedBy.AllOf) != 0 ==>
+//@              (result <==> (len(prov) >= 2
+//@                 && (forall a: int :: 0 <= a && a < len(o.Spec.Requirements.SignedBy.AllOf) ==> signedCover(o.Spec.Requirements.Attributes, prov, o.Spec.Requirements.SignedBy.AllOf[a]))
+//@                 && (len(o.Spec.Requirements.SignedBy.AnyOf) == 0 ||
+//@                     (exists a: int :: 0 <= a && a < len(o.Spec.Requirements.SignedBy.AnyOf) && signedCover(o.Spec.Requirements.Attributes, prov, o.Spec.Requirements.SignedBy.AnyOf[a])))))
 
 // ---- events (signature = abstract identity of the typed event; byte-level form under C16) ----
 //@ spec sigOrder(kind: int, id: OrderID): str
@@ -115,6 +142,8 @@ package types
 //@   trusted
 //@   ensures evSig(result) == sigLease(2, e.ID, e.Price)
 
+//@ property C08 := (OrderID).Validate#*, (MsgCreateBid).ValidateBasic#*, (Order).Price#*, (Order).MatchRequirements#*
+//@ property C05 := EscrowAccountForBid#*, EscrowPaymentForLease#*, LeaseIDFromEscrowAccount#*
 //@ property C04 := EscrowAccountForBid#*, (Order).ID#*, (Bid).ID#*, (Lease).ID#*, MakeOrderID#*, (OrderID).GroupID#*, (OrderID).Equals#*, MakeBidID#*, (BidID).Equals#*, (BidID).LeaseID#*,
 //@                 (BidID).OrderID#*, (BidID).GroupID#*, (BidID).DeploymentID#*, MakeLeaseID#*, (LeaseID).Equals#*, (LeaseID).BidID#*, (LeaseID).OrderID#*,
 //@                 (LeaseID).GroupID#*, (LeaseID).DeploymentID#*, (Order).ValidateCanBid#*, (Order).ValidateInactive#*,
